@@ -176,6 +176,9 @@ impl Agg {
         HEARTBEAT.fetch_add(1, Ordering::Relaxed);
         if ev.watchdog {
             self.watchdogs += 1;
+            if !self.extra.contains_key("first_watchdog_input") {
+                self.extra.insert("first_watchdog_input".into(), serde_json::to_value(input).unwrap_or(Value::Null));
+            }
         }
         for c in &ev.classes {
             *self.classes.entry(c.to_string()).or_default() += 1;
